@@ -95,7 +95,9 @@ def _to_val(x):
 
 
 def parse_out(stdout, rel="Out"):
-    """rows of `(print-function rel)`: lines `(rel a1 .. an) -> ...`; arguments are integers or constructor terms"""
+    """rows of `(print-function <rel>S)` (the small-range copy of rel): lines `(<rel>S a1 .. an) -> ...`;
+    arguments are integers or constructor terms"""
+    rel = rel + "S"
     rows = set()
     for line in stdout.splitlines():
         line = line.strip()
@@ -652,7 +654,7 @@ def step_events(events, trig_tid):
     for i, ev in enumerate(events):
         if ev.get("ev") != "run":
             continue
-        if any(rr["atoms"] and rr["desc"] != "check_facts" for rr in ev["rules"]):
+        if any(rr["atoms"] and rr["desc"] != "check_facts" and ":ruleset filt" not in rr["desc"] for rr in ev["rules"]):
             idx.append(i)
     return idx
 
